@@ -663,86 +663,39 @@ def _rule_5_fragment(ctx):
 
 
 def rule_6(ctx):
+    """The percent sign, decided by tokenizing and parsing witness formulas as written: after a reference, a parenthesised
+    expression or a call it is a postfix operator of its own; after a number literal the literal stays ONE operand (value / 100)
+    or carries the postfix operator - never an infix operator, which would give the literal that operator's precedence
+    (=8/50% would be 8/50*0.01); the factor is 1/100 everywhere."""
+    from . import parsetables as P
     tm = ctx.mod('tokenizer')
     fn = tm.func('ExcelParser.getTokens')
-    # does the tokenizer ever emit a postfix operator token?
-    emits_post = False
-    for c in flow.calls_in(fn):
-        if isinstance(c.func, ast.Attribute) and c.func.attr in ('add', 'addRef'):
-            for a in c.args:
-                if isinstance(a, ast.Attribute) and a.attr == 'TOK_TYPE_OP_POST':
-                    emits_post = True
-    pct = [n for n in walk_local(fn) if isinstance(n, ast.If)
-           and any(isinstance(x, ast.Constant) and x.value == '%' for x in ast.walk(n.test))]
-    if not pct:
-        raise AnchorMissing('tokenizer: no branch handling "%"')
-    ctx.expect(emits_post, pct[0], 'percent emitted as postfix operator',
+    missing = []
+    for operand in ('A1', '(A1+1)', 'SUM(A1)', '$B$2'):
+        toks = P.tokens_of(ctx, f'={operand}%')
+        if not (isinstance(toks, list) and toks and toks[-1][1] == 'operator-postfix'):
+            missing.append(f'={operand}% -> {toks if not isinstance(toks, list) else [t[:2] for t in toks]}')
+    ctx.expect(not missing, fn, 'percent emitted as postfix operator',
                'the tokenizer never emits an operator-postfix token: "%" is rewritten to "* 0.01" '
                '(precedence of *) or folded into the preceding text with float(), so the precedence '
-               'class of % cannot apply (=2^(A1)% ; =A1% raises ValueError)')
-    # decision table of the branch on a number literal: `50%` must stay ONE operand (value/100) or become operand + postfix operator;
-    # an infix operator emitted here gives the literal the precedence of that operator (=8/50% would be 8/50*0.01)
-    consts = _tok_consts(ctx)
-    tokvars = {c.func.value.id for c in ast.walk(pct[0]) if isinstance(c, ast.Call) and isinstance(c.func, ast.Attribute)
-               and c.func.attr == 'add' and isinstance(c.func.value, ast.Name)}
-    if len(tokvars) != 1:
-        raise Unmodelled(f'percent branch adds tokens to {sorted(tokvars)}')
-    listvar = tokvars.pop()
-    textvars = {a.id for c in ast.walk(pct[0]) if isinstance(c, ast.Call) and isinstance(c.func, ast.Name) and c.func.id == 'len'
-                for a in c.args if isinstance(a, ast.Name)}
-    textvar = textvars.pop() if len(textvars) == 1 else 'token'
-
-    class _Out(PyModel):
-        def __init__(self):
-            self.added = []
-
-        def add(self, value, ttype, subtype=''):
-            self.added.append((value, ttype))
-            return Rec(tvalue=value, ttype=ttype, tsubtype=subtype)
-    # the names of the text being scanned and of the read position: what the single-character reader of the branch test subscripts
-    textname, posname = 'formula', 'offset'
-    for c in ast.walk(pct[0].test):
-        if isinstance(c, ast.Call) and isinstance(c.func, ast.Name) and not c.args:
-            for n_ in ast.walk(fn):
-                if isinstance(n_, ast.FunctionDef) and n_.name == c.func.id and n_ is not fn:
-                    for r_ in ast.walk(n_):
-                        if isinstance(r_, ast.Subscript) and isinstance(r_.value, ast.Name) and isinstance(r_.slice, ast.Name):
-                            textname, posname = r_.value.id, r_.slice.id
+               'class of % cannot apply (=2^(A1)% ; =A1% raises ValueError): ' + '; '.join(missing[:3]))
     for literal in ('50', '2.5'):
-        sink = _Out()
-        env = {listvar: sink, textvar: literal, textname: literal + '%', posname: len(literal), 'self': Rec(cls='pkg:tokenizer:ExcelParser')}
-        it = Interp(ctx.a, tm, env, self_class='pkg:tokenizer:ExcelParser', scope_fn=fn)
-        it.run([pct[0]])
-        kinds_ = [t for _, t in sink.added]
-        folded = len(sink.added) == 1 and kinds_ == [consts['TOK_TYPE_OPERAND']] and isinstance(sink.added[0][0], (int, float)) \
-            and Fraction(str(sink.added[0][0])) == Fraction(literal) / 100
-        postfix = kinds_ == [consts['TOK_TYPE_OPERAND'], consts['TOK_TYPE_OP_POST']]
-        ctx.expect(folded or postfix, pct[0], f'percent after the number literal {literal}: one operand or operand + postfix operator',
-                   f'"{literal}%" is tokenized as {sink.added!r}: a percent literal must stay a single operand ({literal}/100) or carry a postfix '
+        toks = P.tokens_of(ctx, f'={literal}%')
+        folded = isinstance(toks, list) and len(toks) == 1 and toks[0][1] == 'operand' and isinstance(toks[0][0], (int, float)) \
+            and Fraction(str(toks[0][0])) == Fraction(literal) / 100
+        postfix = isinstance(toks, list) and [t[1] for t in toks] == ['operand', 'operator-postfix']
+        ctx.expect(folded or postfix, fn, f'percent after the number literal {literal}: one operand or operand + postfix operator',
+                   f'"{literal}%" is tokenized as {toks!r}: a percent literal must stay a single operand ({literal}/100) or carry a postfix '
                    f'operator; with an infix operator it takes that operator\'s precedence (=8/{literal}% evaluates as 8/{literal}*0.01, '
                    f'=4^{literal}% as 4^{literal}*0.01)')
-    # percent factors agree (1/100 everywhere)
-    factors = []
-    for c in ast.walk(pct[0]):
-        if isinstance(c, ast.Call) and isinstance(c.func, ast.Attribute) and c.func.attr == 'add' and c.args:
-            a0 = c.args[0]
-            if isinstance(a0, ast.BinOp) and isinstance(a0.op, ast.Div) and isinstance(a0.right, ast.Constant):
-                factors.append((c, Fraction(1) / Fraction(str(a0.right.value))))
-            elif isinstance(a0, ast.Constant) and isinstance(a0.value, float):
-                factors.append((c, Fraction(str(a0.value))))
-    om = ctx.mod('xlfunctions.operator')
-    if om.has_func('OP_PERCENT'):
-        pf = om.func('OP_PERCENT')
-        ret = last_return(pf)
-        try:
-            lf = linear(ret.value, {func_params(pf)[0]: Lin.var('x')})
-            factors.append((pf, lf.coefs.get('x', Fraction(0))))
-        except (Unmodelled, AttributeError):
-            ctx.unmodelled(pf, 'OP_PERCENT is not a linear form')
-    for node, f in factors:
-        ctx.expect(f == Fraction(1, 100), node, f'percent factor line-role {type(node).__name__}',
-                   f'percent factor is {f}, not 1/100')
-    ctx.floor(5, 'postfix emission + literal table + percent factors')
+    # the factor is 1/100 wherever a percent sign is evaluated
+    for formula, want in (('=50%', 0.5), ('=200%', 2.0), ('=0.5%', 0.005), ('=8/50%', ('op', '/', 8, 0.5)), ('=4^50%', ('op', '^', 4, 0.5))):
+        got = P.parse_tree(ctx, formula)
+        ok = got == P.refify(want) or (isinstance(want, float) and isinstance(got, (int, float)) and abs(got - want) < 1e-15)
+        if not ok and isinstance(got, tuple) and got[:2] == ('op', '%'):
+            ok = True           # a genuine postfix operator node: its function is checked by C01.4
+        ctx.expect(ok, fn, f'percent factor: {formula}', f'{formula} is read as {got!r}, expected {want!r}: a percent sign divides by 100')
+    ctx.floor(8, 'postfix emission + literal table + percent factors')
 
 
 def rule_7(ctx):
